@@ -269,6 +269,8 @@ fn render(i: usize, r: &ReqSpec) -> (Req, Option<DestView>) {
             auth: r.auth.clone(),
             extra_headers: extra,
             payload: if method == "CONNECT" { b"ping".to_vec() } else { vec![] },
+            early_payload: false,
+            early_delay_ms: 0,
         },
         dest,
     )
